@@ -126,8 +126,29 @@ def calls():
     C['model_deinvert'] = ('g', lambda a, m: [m.deinvert(t) for t in a['g'].triples])
     C['model_canonicalize'] = ('g', lambda a, m: [m.canonicalize(t) for t in a['g'].triples])
     C['model_keys'] = ('g', lambda a, m: [[m.canonical_order(t[1]), m.alphanumeric_order(t[1]), m0.canonical_order(t[1])] for t in a['g'].triples])
+    C['model_reify_undefined'] = ('g', lambda a, m: m.reify(('a', ':foo', 'b')))
+    C['format_bare'] = ('t', lambda a, m: penman.format(a['t'].node))
+    C['interpret_bare'] = ('t', lambda a, m: layout.interpret(penman.Tree(a['t'].node), m))
+    C['tree_bare_write'] = ('t', lambda a, m: _bare_write(a))
+    C['sub_or_chain'] = ('g', lambda a, m: _chain(a))
     C['union_str'] = ('gh', lambda a, m: str(a['g'] | a['h']))
     return C
+
+
+def _chain(a):
+    """(g - last three triples) | three new triples with a new source: equal size, different variables"""
+    from penman.graph import Graph
+    g = a['g']
+    r = (g - Graph(g.triples[-3:])) | Graph([('zz', ':instance', 'Z'), ('zz', ':r', 'a'), ('a', ':q', 'zz')])
+    return [r.variables(), [tuple(t) for t in r.edges()], [tuple(t) for t in r.attributes()], r.reentrancies(), r.top]
+
+
+def _bare_write(a):
+    """a client builds its own Tree without metadata and annotates it"""
+    import penman
+    t = penman.Tree(a['t'].node)
+    t.metadata['note'] = 'mine'
+    return penman.format(t, indent=None)
 
 
 def invoke(fn, a, m):
